@@ -76,3 +76,26 @@ Print Assumptions C07_any_recipient_opens.
 Print Assumptions C07_no_other_key_opens.
 Print Assumptions C07_wrap_tag_agrees.
 Print Assumptions C07_secrets_come_from_os_entropy.
+
+(* ---------- Tie A, decision logic (tools/src2v2.py -> gen/Src2.v): add_public_keys extends, every private key is tried, check refuses an encrypting config without recipient ---------- *)
+From MLA Require SrcTie2b SrcTie2Events.
+Check SrcTie2Events.recipients_facts.
+Theorem C07_tie_recipients_facts : ltac:(let t := type of SrcTie2Events.recipients_facts in exact t).
+Proof. exact SrcTie2Events.recipients_facts. Qed.
+Print Assumptions C07_tie_recipients_facts.
+Check SrcTie2b.cfg_check_src.
+Theorem C07_tie_cfg_check_src : ltac:(let t := type of SrcTie2b.cfg_check_src in exact t).
+Proof. exact SrcTie2b.cfg_check_src. Qed.
+Print Assumptions C07_tie_cfg_check_src.
+Check SrcTie2b.cfg_to_persistent_src.
+Theorem C07_tie_cfg_to_persistent_src : ltac:(let t := type of @SrcTie2b.cfg_to_persistent_src in exact t).
+Proof. exact @SrcTie2b.cfg_to_persistent_src. Qed.
+Print Assumptions C07_tie_cfg_to_persistent_src.
+Check SrcTie2b.cfg_builders_src.
+Theorem C07_tie_cfg_builders_src : ltac:(let t := type of SrcTie2b.cfg_builders_src in exact t).
+Proof. exact SrcTie2b.cfg_builders_src. Qed.
+Print Assumptions C07_tie_cfg_builders_src.
+Check SrcTie2Events.EV_enc_load_persistent_shape.
+Theorem C07_tie_EV_enc_load_persistent_shape : ltac:(let t := type of SrcTie2Events.EV_enc_load_persistent_shape in exact t).
+Proof. exact SrcTie2Events.EV_enc_load_persistent_shape. Qed.
+Print Assumptions C07_tie_EV_enc_load_persistent_shape.
